@@ -16,6 +16,6 @@ s = open(p).read()
 a = s.index("| change | what it needs to manifest |")
 b = s.index("\nTags that caught them:")
 s = s[:a] + table + s[b:]
-s = re.sub(r"(Seventeen|[A-Z][a-z-]+) changes were produced", "%d changes were produced" % len(rows), s)
+s = re.sub(r"(\d+|[A-Z][a-z-]+) changes were produced", "%d changes were produced" % len(rows), s)
 open(p, "w").write(s)
 print(len(rows), "rows")
